@@ -28,7 +28,10 @@ the footprint `Dyn`; the process-wide FFT cache and VR coefficient tables as `Gl
   engine but VR) is independent of the process history.
 * VR: `vr_first_instance_wins`, `vr_not_independent` — the static tables take the FIRST VR instance's `mult`; a later
   instance with another scale gets the first one's gain: independence is FALSE for the VR engine (finding F6, replayed on the
-  real code by `checks/c10.py`); `vr_independent_same_mult` is what remains true.
+  real code by `checks/c10.py`); `vr_independent_same_mult` is what remains true.  `vr_tables_first_wins`,
+  `vr_tables_mult_only`, `vr_probe_independent_same_mult`: the three tables sit behind one guard and are built
+  unconditionally from `mult` only (tied to the text of vr32.c by `vr_init_block_match`), so the first instance's ratio
+  class / stage count can matter for NO table; the falsifier's first-instance matrix searches the real code for it.
 * `clear_forgets_ratio_without_channels`: HISTORICAL witness about `clearOld`, the expression before commit 76fe472 (F18:
   clear of an object without channels forgot io_ratio); `clear` follows the repaired code and `clear_eq_fresh` needs no
   excluding hypothesis.  `checks/c10.py` replays the witness history on every run: the forgetting coming back is a violation.
@@ -268,6 +271,39 @@ theorem vr_not_independent :
 theorem vr_independent_same_mult (g : Globals) (m : Nat) (h : g.vrMult = none ∨ g.vrMult = some m) :
     vrEffective g m = m := by
   rcases h with h | h <;> simp [vrEffective, useVr, h]
+
+/-! ### the VR tables: which of the first instance's parameters may matter -/
+
+/-- after any number of VR instances the tables are what the FIRST one built -/
+theorem vr_tables_first_wins (p : VrParams) (ps : List VrParams) :
+    (ps.foldl vrInit (vrInit none p)) = some (vrBuild p) := by
+  induction ps generalizing p with
+  | nil => rfl
+  | cons q qs ih =>
+    have : vrInit (vrInit none p) q = vrInit none p := rfl
+    simp only [List.foldl_cons, this]
+    exact ih p
+
+/-- the CONTENT of the tables depends on nothing of the first instance besides `mult` (its ratio class, number of stages,
+    default ratio are irrelevant), and every table is built whatever the first instance needs itself -/
+theorem vr_tables_mult_only (p1 p2 : VrParams) (h : p1.mult = p2.mult) :
+    vrBuild p1 = vrBuild p2 ∧ (vrBuild p1).fade.isSome ∧ (vrBuild p1).u.isSome ∧ (vrBuild p1).d.isSome := by
+  simp [vrBuild, h]
+
+/-- positive independence for VR: a probe instance sees the tables of a fresh process, whatever VR instances — of ANY ratio
+    class — came before, as long as they used the same `mult` (the F6 proviso) -/
+theorem vr_probe_independent_same_mult (probe first : VrParams) (others : List VrParams) (h : first.mult = probe.mult) :
+    vrSeen (others.foldl vrInit (vrInit none first)) probe = vrSeen none probe := by
+  rw [vr_tables_first_wins]
+  simp [vrSeen, vrInit, (vr_tables_mult_only first probe h).1]
+
+/-- what a violation of this looks like (a table built only if the first instance needs it): an up-sampling-only first
+    instance leaves the down-sampling table empty for every later instance -/
+example :
+    let buildIfNeeded : VrParams → VrTables := fun p => { fade := some (), u := some p.mult, d := if p.stages0 ≠ 0 then some p.mult else none }
+    buildIfNeeded ⟨1, 0, 1⟩ ≠ buildIfNeeded ⟨1, 2, 4⟩ := by decide
+
+example : vrSeen ([⟨1, 3, 9⟩].foldl vrInit (vrInit none ⟨1, 0, 1⟩)) ⟨1, 1, 2⟩ = vrSeen none ⟨1, 1, 2⟩ := by decide
 
 /-! ### non-vacuity -/
 
